@@ -75,6 +75,13 @@ func c30Method(plugin string, respLen int) string {
 // stored passwords under method, and of which.
 func c30Reference(method string, stored []string, salt, resp []byte) (bool, int) {
 	for i, s := range stored {
+		if s == "" {
+			// an account without a password: MySQL accepts exactly the empty response
+			if len(resp) == 0 {
+				return true, i
+			}
+			continue
+		}
 		if stage2, isHash := mgIsHashForm(s); isHash {
 			// only the double SHA1 is known: verifiable with mysql_native_password only
 			if method == "native" && mgNativeVerify(salt, resp, stage2) {
@@ -242,6 +249,10 @@ func c30Make(r *kit.Rand, forms string, target int, plugin, kind string) c30Case
 		var p []byte
 		for {
 			p = c30Password(r)
+			if forms[i] == 'E' {
+				p = []byte{} // form E: the empty password (a configured blank password, trimmed by models.User.verify)
+				break
+			}
 			if forms[i] == 'X' {
 				// a clear-text password of 41 bytes that starts with '*' and is not hex
 				const nonhex = "ghijklmnopqrstuvwxyzGHIJKLMNOPQRSTUVWXYZ_-"
@@ -383,7 +394,7 @@ func c30AllForms(maxLen int) []string {
 }
 
 func TestVerif_C30(t *testing.T) {
-	rec := kit.Start("C30", "exploration", "structured cells (stored-password forms C/H/X of length 1..3 in table order) x target entry x session plugin {none, mysql_native_password, caching_sha2_password} x response kind (20 kinds: correct / bit flipped / truncated / extended / padded to 32 / wrong salt / proof of the stored text / other user's / empty / random / responses whose hash agrees with the stored hash on a 2-byte prefix or suffix), each instantiated with random 20-byte salts and random ASCII or multi-byte passwords of 1..64 bytes; non-trivial = distinct (forms, target form, plugin, kind, expected outcome) cells whose response was derived from a configured password; plus the wire part: handshake responses parsed by the real readHandshakeResponse / Session.Handshake over in-memory connections while other connections read small packets from the shared buffer pool (interleaved and concurrent schedules)")
+	rec := kit.Start("C30", "exploration", "structured cells (stored-password forms C/H/X of length 1..3 in table order, plus 7 tables with an empty stored password E) x target entry x session plugin {none, mysql_native_password, caching_sha2_password} x response kind (20 kinds: correct / bit flipped / truncated / extended / padded to 32 / wrong salt / proof of the stored text / other user's / empty / random / responses whose hash agrees with the stored hash on a 2-byte prefix or suffix), each instantiated with random 20-byte salts and random ASCII or multi-byte passwords of 1..64 bytes; non-trivial = distinct (forms, target form, plugin, kind, expected outcome) cells whose response was derived from a configured password; plus the wire part: handshake responses parsed by the real readHandshakeResponse / Session.Handshake over in-memory connections while other connections read small packets from the shared buffer pool (interleaved and concurrent schedules)")
 	defer rec.Finish(t)
 	if err := mgInit(); err != nil {
 		t.Fatal(err)
@@ -391,7 +402,7 @@ func TestVerif_C30(t *testing.T) {
 	defer mgCleanup()
 	rec.Assume("a stored password of the form '*' + 40 hex digits is a mysql_native_password hash (SHA1(SHA1(password))); it can be verified with mysql_native_password only, so under caching_sha2_password no response is a correct proof for it; any other stored string is clear text")
 	rec.Assume("the user table is filled by the real UserManager.addNamespaceUsers in a fixed order (one namespace per stored password) instead of CreateUserManager, whose map iteration would make the order of a user's passwords vary between runs")
-	rec.Assume("configured passwords are never empty (models.User.verify refuses them); distinct stored entries of one user have distinct clear texts")
+	rec.Assume("distinct stored entries of one user have distinct clear texts; at most one of them is empty (models.User.verify refuses \"\" but trims a password of blanks to it)")
 
 	rig := c30NewRig()
 	defer rig.sess.close()
@@ -503,6 +514,28 @@ func TestVerif_C30(t *testing.T) {
 			}
 		}
 	}
+	// form E: one stored password of user u is empty (a configured password of blanks only passes
+	// models.User.verify and is trimmed to ""). The only proof of an empty password is the empty
+	// response, under either method; proofs aimed at the other entries and responses of other
+	// provenance are judged as before.
+	nE := 0
+	for _, forms := range []string{"E", "CE", "EC", "HE", "EH", "CEH", "XE"} {
+		for target := -1; target < len(forms); target++ {
+			for _, plugin := range plugins {
+				for _, kind := range []string{"native-correct", "sha2-correct", "native-bitflip", "sha2-bitflip", "other-user-native", "other-user-sha2", "empty", "random-20", "random-32"} {
+					needsTarget := !(kind == "empty" || strings.HasPrefix(kind, "random") || strings.HasPrefix(kind, "other-user"))
+					if needsTarget != (target >= 0) || (target >= 0 && forms[target] == 'E') {
+						continue // the proof of the empty password is the "empty" kind
+					}
+					for i := 0; i < reps; i++ {
+						nE++
+						handle(c30Make(r, forms, target, plugin, kind))
+					}
+				}
+			}
+		}
+	}
+	rec.Set("empty_password_cases", nE)
 	c30WirePart(rec, rig.m)
 	rec.Set("cells", map[string]interface{}{"forms": len(c30AllForms(3)), "plugins": len(plugins), "kinds": len(c30Kinds), "instances_per_cell": reps})
 	if rec.CounterValue("expected.accept") == 0 || rec.CounterValue("observed.accept") == 0 {
